@@ -1,7 +1,6 @@
 package main
 
 import (
-	"errors"
 	"fmt"
 	"io"
 	"os"
@@ -9,7 +8,6 @@ import (
 	"sort"
 	"strings"
 	"sync"
-	"syscall"
 	"time"
 
 	"github.com/pkg/sftp"
@@ -124,104 +122,6 @@ func (h *c10H) Readlink(p string) (string, error) {
 
 func c10AbsClean(p string) bool { return path.IsAbs(p) && path.Clean(p) == p }
 
-// ---- error algebra ----
-
-type c10ErrCase struct {
-	Term string // abstract term (line-protocol syntax, see Sftp/Driver/C10.lean when present)
-	Err  error
-	Kind string // what the property says the client must see: ok eof notexist permission status:<c> failure
-}
-
-func c10Errors() []c10ErrCase {
-	var out []c10ErrCase
-	add := func(term string, e error, kind string) { out = append(out, c10ErrCase{term, e, kind}) }
-	add("NIL", nil, "ok")
-	add("EOF", io.EOF, "eof")
-	add("NX", os.ErrNotExist, "notexist")
-	add("PERM", os.ErrPermission, "permission")
-	base := []struct {
-		term string
-		e    error
-		kind string
-	}{
-		{"E2", syscall.ENOENT, "notexist"}, {"E13", syscall.EACCES, "permission"}, {"E1", syscall.EPERM, "permission"},
-		{"E17", syscall.EEXIST, "failure"}, {"E20", syscall.ENOTDIR, "failure"}, {"E22", syscall.EINVAL, "failure"}, {"E9", syscall.EBADF, "failure"},
-		{"NX", os.ErrNotExist, "notexist"}, {"PERM", os.ErrPermission, "permission"},
-	}
-	for _, b := range base {
-		if strings.HasPrefix(b.term, "E") {
-			add(b.term, b.e, b.kind)
-		}
-		add("P("+b.term+")", &os.PathError{Op: "op", Path: "/p", Err: b.e}, b.kind)
-		add("L("+b.term+")", &os.LinkError{Op: "link", Old: "/a", New: "/b", Err: b.e}, b.kind)
-		add("S("+b.term+")", &os.SyscallError{Syscall: "sys", Err: b.e}, b.kind)
-	}
-	for code := uint32(0); code <= 8; code++ {
-		kind := fmt.Sprintf("status:%d", code)
-		switch code {
-		case 0:
-			kind = "ok"
-		case 1:
-			kind = "eof"
-		case 2:
-			kind = "notexist"
-		case 3:
-			kind = "permission"
-		case 4:
-			kind = "failure"
-		}
-		add(fmt.Sprintf("F%d", code), sftpFxErr(code), kind)
-	}
-	add("X", errors.New("some other error"), "failure")
-	add("W(X)", fmt.Errorf("wrapped: %w", errors.New("inner")), "failure")
-	add("W(EOF)", fmt.Errorf("wrapped: %w", io.EOF), "eof")
-	return out
-}
-
-func sftpFxErr(code uint32) error {
-	switch code {
-	case 0:
-		return sftp.ErrSSHFxOk
-	case 1:
-		return sftp.ErrSSHFxEOF
-	case 2:
-		return sftp.ErrSSHFxNoSuchFile
-	case 3:
-		return sftp.ErrSSHFxPermissionDenied
-	case 4:
-		return sftp.ErrSSHFxFailure
-	case 5:
-		return sftp.ErrSSHFxBadMessage
-	case 6:
-		return sftp.ErrSSHFxNoConnection
-	case 7:
-		return sftp.ErrSSHFxConnectionLost
-	case 8:
-		return sftp.ErrSSHFxOpUnsupported
-	}
-	return nil
-}
-
-func c10KindOfClientErr(err error) string {
-	switch {
-	case err == nil:
-		return "ok"
-	case errors.Is(err, io.EOF):
-		return "eof"
-	case errors.Is(err, os.ErrNotExist):
-		return "notexist"
-	case errors.Is(err, os.ErrPermission):
-		return "permission"
-	}
-	if code, _, _, ok := sftp.VerifStatusFields(err); ok {
-		if code == 4 {
-			return "failure"
-		}
-		return fmt.Sprintf("status:%d", code)
-	}
-	return "other:" + err.Error()
-}
-
 func checkC10(c *lib.Ctx) {
 	r := c.R
 	if c.Replay != "" {
@@ -232,10 +132,21 @@ func checkC10(c *lib.Ctx) {
 			checkC10Ret(c, &scn)
 			return
 		}
+		// replays of section (c) name their error term
+		var ein struct {
+			Term string `json:"term"`
+		}
+		if err := lib.ReadReplay(c.Replay, &ein); err == nil && ein.Term != "" {
+			if _, perr := c10Parse(ein.Term); perr == nil {
+				r.Rule = "(c) one error term; " + c10RuleTable
+				checkC10Err(c, ein.Term, map[string]bool{})
+				return
+			}
+		}
 	}
 	defer func() { r.Rule += "; " + c10rRule_ }()
 	defer checkC10Ret(c, nil)
-	r.Rule = "(a) cleanPathWithBase vs the Lean path model: exhaustive over all strings of length <= 7 (quick) / <= 8 (thorough) over the alphabet {'/', '.', 'a', 0xff} with 5 bases, plus PRNG strings; (b) end to end through a real RequestServer with recording handlers: every request kind x tricky path strings x start directories: handler called exactly once with the expected method, AbsClean paths, the flags and attribute bytes sent; (c) error algebra: every error term of the stated families returned by a handler, through statusFromError -> wire -> normaliseError, kind seen by the client; non-trivial = path needing cleaning / wrapped error"
+	r.Rule = "(a) cleanPathWithBase vs the Lean path model: exhaustive over all strings of length <= 7 (quick) / <= 8 (thorough) over the alphabet {'/', '.', 'a', 0xff} with 5 bases, plus PRNG strings; (b) end to end through a real RequestServer with recording handlers: every request kind x tricky path strings x start directories: handler called exactly once with the expected method, AbsClean paths, the flags and attribute bytes sent; (c) error algebra: the full product wrapper x inner error (see (d) error-product for the lists) through statusFromError -> normaliseError directly, compared with the Lean model over the regenerated ErrTables (c10.client / c10.status; custom Unwrap as W, atoms the model does not distinguish as X, errors.Join has no model value), and through the wire from 14 return sites of recording handlers; " + c10RuleTable + "; non-trivial = path needing cleaning / wrapped error"
 	// ---------- (a) path model differential ----------
 	alpha := []byte{'/', '.', 'a', 0xff}
 	maxLen := 7
@@ -410,7 +321,7 @@ func checkC10(c *lib.Ctx) {
 				}
 				if !ok {
 					r.Fail(lib.Failure{Kind: "oracle", Key: "adapter/" + cc.name, What: "handler was not invoked exactly once with the method, clean absolute paths, flags and attributes the client sent",
-						Input: map[string]string{"start": sd, "path": lib.Hex([]byte(q)), "path2": lib.Hex([]byte(q2))},
+						Input:    map[string]string{"start": sd, "path": lib.Hex([]byte(q)), "path2": lib.Hex([]byte(q2))},
 						Expected: c10Rec{Method: cc.method, Filepath: wantFp, Target: wantTg}, Actual: map[string]any{"calls": recs, "client_err": fmt.Sprint(cerr)}})
 				}
 				if len(r.Samples) < 4 && q == "./a/../b" && (cc.name == "Symlink" || cc.name == "Rename") {
@@ -438,8 +349,17 @@ func checkC10(c *lib.Ctx) {
 		p.Close()
 	}
 
-	// ---------- (c) error algebra ----------
+	checkC10Err(c, "", hungCalls)
+}
+
+// checkC10Err is section (c). With a term (replay) only that term is run.
+func checkC10Err(c *lib.Ctx, only string, hungCalls map[string]bool) {
+	r := c.R
+	// ---------- (c) error algebra: the product wrapper x inner error, see c10_errterm.go for THE RULE ----------
 	ecases := c10Errors()
+	if only != "" {
+		ecases = []c10ErrCase{c10Lookup(only)}
+	}
 	h := &c10H{data: []byte("0123456789")}
 	p, err := vhStartRS(sftp.Handlers{FileGet: h, FilePut: h, FileCmd: h, FileList: h}, nil)
 	if err != nil {
@@ -449,35 +369,70 @@ func checkC10(c *lib.Ctx) {
 	defer p.Close()
 	cl := p.Client
 	type via struct {
-		name string
-		do   func() error
+		name  string
+		value bool // the request is answered with a value (handle, attributes, name …), not with a status
+		do    func() error
+	}
+	withFile := func(flags int, f func(*sftp.File) error) error {
+		save := h.err
+		h.err = nil
+		file, e := cl.OpenFile("/f", flags)
+		h.err = save
+		if e != nil {
+			return fmt.Errorf("harness: open: %w", e)
+		}
+		e = f(file)
+		h.err = nil
+		file.Close()
+		h.err = save
+		return e
+	}
+	vias := []via{
+		{"Filecmd", false, func() error { return cl.Mkdir("/d") }},
+		{"Filecmd-Rename", false, func() error { return cl.Rename("/a", "/b") }},
+		{"Filecmd-Setstat", false, func() error { return cl.Chmod("/a", 0o600) }},
+		{"PosixRename", false, func() error { return cl.PosixRename("/a", "/b") }},
+		{"Filelist", true, func() error { _, e := cl.Stat("/s"); return e }},
+		{"Filelist-Lstat", true, func() error { _, e := cl.Lstat("/s"); return e }},
+		{"Filelist-List", true, func() error { _, e := cl.ReadDir("/s"); return e }},
+		{"Fileread-open", true, func() error { _, e := cl.Open("/open-fails"); return e }},
+		{"Filewrite-open", true, func() error { _, e := cl.OpenFile("/open-fails", os.O_WRONLY|os.O_CREATE); return e }},
+		{"OpenFile-open", true, func() error { _, e := cl.OpenFile("/open-fails", os.O_RDWR); return e }},
+		{"Readlink", true, func() error { _, e := cl.ReadLink("/l"); return e }},
+		{"StatVFS", true, func() error { _, e := cl.StatVFS("/v"); return e }},
+		{"ReadAt", true, func() error {
+			return withFile(os.O_RDONLY, func(f *sftp.File) error { _, e := f.ReadAt(make([]byte, 4), 0); return e })
+		}},
+		{"WriteAt", false, func() error {
+			return withFile(os.O_WRONLY, func(f *sftp.File) error { _, e := f.WriteAt([]byte("abcd"), 0); return e })
+		}},
 	}
 	var elines, eimpl []string
+	cells := map[string]int{}
+	devHits := map[string]int{}
 	for _, ec := range ecases {
 		h.err = ec.Err
-		vias := []via{
-			{"Filecmd", func() error { return cl.Mkdir("/d") }},
-			{"Filelist", func() error { _, e := cl.Stat("/s"); return e }},
-			{"Fileread-open", func() error { _, e := cl.Open("/open-fails"); return e }},
-			{"Readlink", func() error { _, e := cl.ReadLink("/l"); return e }},
-			{"StatVFS", func() error { _, e := cl.StatVFS("/v"); return e }},
-		}
 		// direct (no wire): statusFromError -> normaliseError
 		code, msg := sftp.VerifStatusFromError(ec.Err)
 		direct := c10KindOfClientErr(sftp.VerifNormaliseError(sftp.VerifStatusError(code, msg, "")))
 		results := map[string]string{"direct": direct}
-		elines = append(elines, "c10.client "+ec.Term)
-		eimpl = append(eimpl, direct)
-		elines = append(elines, "c10.status "+ec.Term)
-		eimpl = append(eimpl, fmt.Sprint(code))
+		texts := map[string]string{"direct": msg}
+		if mt := c10ModelTerm(ec.T); mt != "" {
+			elines = append(elines, "c10.client "+mt)
+			eimpl = append(eimpl, direct)
+			elines = append(elines, "c10.status "+mt)
+			eimpl = append(eimpl, fmt.Sprint(code))
+		} else {
+			r.Hist("error-terms-without-model-value")
+		}
 		for _, v := range vias {
-			if ec.Err == nil && v.name == "Fileread-open" {
-				continue
+			if ec.Err == nil {
+				continue // no error: the adapter part (b) is about that
 			}
-			// a handler that answers "OK" (fxerr code 0) where a handle, attributes or a name must be returned
+			// a handler that answers "OK" (status code 0) where a handle, attributes or a name must be returned
 			// has returned nothing: the client reports a protocol error for it (no value to give back). Only
 			// status-only requests can meaningfully be answered with ErrSSHFxOk.
-			if ec.Kind == "ok" && ec.Err != nil && v.name != "Filecmd" {
+			if c10KindHas(ec.Kind, "ok") && v.value {
 				continue
 			}
 			if hungCalls["via/"+v.name] || c.Stop("c10/errkind/"+v.name) {
@@ -489,43 +444,48 @@ func checkC10(c *lib.Ctx) {
 				hungCalls["via/"+v.name] = true
 				continue
 			}
-			k := c10KindOfClientErr(e)
-			if ec.Err == nil {
-				k = c10KindOfClientErr(e) // handlers succeed
+			results[v.name] = c10KindOfClientErr(e)
+			if _, m, _, ok := sftp.VerifStatusFields(e); ok {
+				texts[v.name] = m
 			}
-			results[v.name] = k
 		}
-		r.Case("err "+ec.Term, strings.Contains(ec.Term, "("))
+		r.Case("err "+ec.Term, ec.T.isWrapper())
 		r.Hist("error-terms")
+		cells[ec.Class+" x "+ec.Family+" ["+ec.Basis+"]"]++
 		var names []string
 		for n := range results {
 			names = append(names, n)
 		}
 		sort.Strings(names)
 		for _, n := range names {
-			want := ec.Kind
-			if results[n] != want {
+			got := results[n]
+			in := map[string]string{"term": ec.Term, "go_error": fmt.Sprintf("%#v", ec.Err), "via": n, "rule_basis": ec.Basis}
+			if !c10KindHas(ec.Kind, got) {
 				fam := "other"
 				switch ec.Kind {
 				case "permission", "notexist", "eof":
 					fam = ec.Kind
 				}
-				r.Fail(lib.Failure{Kind: "oracle", Key: "errkind/" + fam + "/" + strings.SplitN(ec.Term, "(", 2)[0], What: "error kind not preserved from handler to client",
-					Input: map[string]string{"term": ec.Term, "go_error": fmt.Sprintf("%#v", ec.Err), "via": n}, Expected: want, Actual: results[n]})
-			}
-		}
-		if ec.Kind == "failure" && ec.Err != nil {
-			// "any other error as a failure carrying its text"
-			var e error
-			if hungCalls["via/Filecmd"] || !lib.Within("c10/errkind/Filecmd", 20*time.Second, func() { e = cl.Mkdir("/d") }) {
-				hungCalls["via/Filecmd"] = true
+				r.Fail(lib.Failure{Kind: "oracle", Key: "errkind/" + fam + "/" + strings.SplitN(ec.Term, "(", 2)[0], What: "error kind not preserved from handler to client (" + ec.Class + " around " + ec.Family + ")",
+					Input: in, Expected: ec.Kind, Actual: got})
 				continue
 			}
-			if _, m, _, ok := sftp.VerifStatusFields(e); !ok || m != ec.Err.Error() {
-				r.Fail(lib.Failure{Kind: "oracle", Key: "errkind/failure-text", What: "failure does not carry the handler error's text", Input: ec.Term, Expected: ec.Err.Error(), Actual: fmt.Sprint(e)})
+			if ec.Basis == "dev" && got == "failure" {
+				devHits[ec.Family]++
+			}
+			if got == "failure" && ec.Err != nil && !strings.Contains(texts[n], ec.Err.Error()) {
+				// "any other error as a failure carrying its text" (OPENDIR decorates a bare errno with the path)
+				r.Fail(lib.Failure{Kind: "oracle", Key: "errkind/failure-text", What: "failure does not carry the handler error's text", Input: in, Expected: ec.Err.Error(), Actual: texts[n]})
 			}
 		}
 	}
 	h.err = nil
+	for k, n := range cells {
+		r.HistAdd("errcell: "+k, n)
+	}
+	r.Note("error rule, documented readings (not the property's words; pinned to the headline 'unchanged in kind' read with errors.Is / errors.As): io.EOF and ErrSSHFx codes are looked through EVERY wrapper (fmt.Errorf %%w, custom Unwrap, errors.Join, nested; ErrSSHFx codes also through *os.PathError/*os.LinkError/*os.SyscallError), whereas not-exist / permission are looked through ONE of os's own wrappers only (behind %%w, Join or two wrappers they are 'any other error': failure with text); io.ErrUnexpectedEOF, os.ErrExist, os.ErrClosed and custom types whose Is() claims not-exist are failures with text")
+	if n := devHits["statuserror"]; n > 0 {
+		r.Note("documented reading: a handler returning *sftp.StatusError{Code: n} (what a proxying handler gets from a Client) is answered SSH_FX_FAILURE carrying its text, not status n, on the unchanged tree (statusFromError asks errors.As for fxerr only); both answers are accepted (%d observations)", n)
+	}
 	c.Compare("c10", elines, eimpl)
 }
